@@ -646,7 +646,7 @@ func (t *Translator) havocWritesSpec(st *State, ws *WriteSet, preds map[string]f
 			if _, explicit := preds[n]; !explicit && modAll {
 				continue
 			}
-			t.assume(st, frameFormula(nv, old, pre.next, p, t.vc.fresh()))
+			t.assumeL(st, frameFormula(nv, old, pre.next, p, t.vc.fresh()), fmt.Sprintf("call%d.frame", t.curCallOrd))
 		}
 	}
 }
